@@ -206,9 +206,75 @@ def run(tier):
             v.violation(case, bad[0], bad[1])
         else:
             v.distinct(("jump", tuple(steps)))
+    # ---- the caller changes protection / advice of FINISHED pages of the code buffer between calls (a JIT sealing pages read+exec,
+    # MADV_DONTDUMP ...), which splits the mapping; the next growth may then be refused by the kernel - that has to be reported, and
+    # after the caller has undone the change the assembly continues; if the growth succeeds instead, the code must be complete and
+    # EXECUTABLE all the same
+    pcases, pmeta = [], []
+    for k, (what, arg, undo) in enumerate([("mprot", 5, 7), ("madv", 16, 17), ("mprot", 5, 7), ("madv", 16, 17), ("mprot", 1, 7), ("mprot", 3, 7)]):  # PROT_READ|PROT_EXEC -> RWX; MADV_DONTDUMP -> DODUMP; PROT_READ; PROT_READ|PROT_WRITE (only changes whose undo really restores the mapping's flags)
+        K = 0x5566778800000000 + k
+        n1 = 5000 + 137 * k
+        part1 = sled(n1 + 11, rnd, K)[:-2]          # nops only (n1 bytes)
+        part2 = sled(3000 + 11, rnd, K)             # ... + mov rax, K + ret: the growth threshold (6000) lies inside this part
+        h1, h2 = common.hx("\n".join(part1) + "\n"), common.hx("\n".join(part2) + "\n")
+        cmds = ["wrap reset", "wrap forcemove %d" % (k % 2), "new 0 int", "new 1 ext 65536 H 0xcc", "asm 0 %s" % h1, "asm 1 %s" % h1,
+                "%s 0 0 1 %d" % (what, arg), "asm 0 %s" % h2, "asm 1 %s" % h2,
+                # whatever happened: undo the caller's change, go back to the end of part 1 and assemble part 2 (again)
+                "%s 0 0 1 %d" % (what, undo), "setoff 0 %d" % n1, "setoff 1 %d" % n1, "asm 0 %s" % h2, "asm 1 %s" % h2, "sumoff 0", "sumoff 1", "exec 0", "wrapreport"]
+        pcases.append(cmds)
+        pmeta.append((what, arg, K))
+    # ... and the variant in which the caller does NOT undo anything and simply calls the code after a growth that was reported successful
+    for k, (what, arg) in enumerate([("mprot", 5), ("madv", 16), ("madv", 14)]):
+        K = 0x6677889900000000 + k
+        part1 = sled(5000 + 11, rnd, K)[:-2]
+        part2 = sled(3000 + 11, rnd, K)
+        h1, h2 = common.hx("\n".join(part1) + "\n"), common.hx("\n".join(part2) + "\n")
+        pcases.append(["wrap reset", "wrap forcemove %d" % (k % 2), "new 0 int", "asm 0 %s" % h1, "%s 0 0 1 %d" % (what, arg), "asm 0 %s" % h2, "exec 0", "wrapreport"])
+        pmeta.append((what + "-noundo", arg, K))
+    pres = common.run_cases(binary, pcases, tag="c08p", per_case_timeout=60)
+    stats["caller_protection_cases"] = 0
+    stats["growth_refused_after_caller_change"] = 0
+    for (what, arg, K), cmds, r in zip(pmeta, pcases, pres):
+        v.count()
+        case = {"key": "caller %s(%d) on the first page, then growth" % (what, arg), "fam": "growth_protect", "script": cmds}
+        recs = r["records"]
+        bad = None
+        if what.endswith("-noundo"):
+            a2 = recs[5].split() if len(recs) > 5 else ["?", "?"]
+            if a2[1] == "0":
+                # the growth was reported successful: the code must run
+                e = recs[6].split() if len(recs) > 6 else []
+                if r["crash"] or e[:2] != ["V", "ok"] or int(e[2], 16) != K:
+                    bad = ("execution-after-growth:" + ("-".join(e[1:3]) if e else "crash"), "growth reported success, but calling the code gives %s" % (" ".join(e) or (r["crash"] or {}).get("sig")))
+            elif r["crash"] and len(recs) < 6:
+                bad = (r["crash"]["sig"], r["crash"]["stderr"][-600:])
+            else:
+                stats["growth_refused_after_caller_change"] += 1
+        elif r["crash"]:
+            bad = (r["crash"]["sig"], (r["crash"]["what"] + "\n" + r["crash"]["stderr"][-800:]))
+        else:
+            mrec, a2 = recs[6].split(), recs[7].split()
+            if mrec[1] != "0":
+                v.inconclusive.append({"why": "the kernel refused the caller's own %s: %s" % (what, recs[6]), "case": case["key"]})
+                continue
+            stats["growth_refused_after_caller_change"] += a2[1] != "0"
+            a3, a3r, s0, s1, e = recs[12].split(), recs[13].split(), recs[14].split(), recs[15].split(), recs[16].split()
+            if a3r[1] != "0":
+                bad = ("precondition:call-failed-on-ample-caller-buffer", " ".join(a3r))
+            elif a3[1] != "0":
+                bad = ("call-failed-on-internal-buffer", "after the caller's change was undone: %s" % " ".join(a3))
+            elif s0[1:] != s1[1:]:
+                bad = ("code-differs-from-reference", "%s vs %s" % (s0[1:], s1[1:]))
+            elif e[:2] != ["V", "ok"] or int(e[2], 16) != K:
+                bad = ("execution:" + "-".join(e[1:3]), "got %s want 0x%x" % (" ".join(e), K))
+        if bad:
+            v.violation(case, bad[0], bad[1])
+        else:
+            stats["caller_protection_cases"] += 1
+            v.distinct(("prot", what, arg))
     v.cov["rule"] = ("executable programs (multi-byte-nop sled + mov rax,K + ret) whose plain length is 6000*m + r for every r in -24..24 (m = %s) so the last instructions start at every distance from the growth "
                      "threshold; single call and 2-50 calls; plain / chunk fitting (8 sizes) / counting; long programs of 300 kB .. 4 MiB of code (thorough: up to 8 MiB: > 1000 growths in one instance) compared and executed the same way; ld --wrap mremap forces EVERY growth to move the mapping (old range unmapped). After every call "
-                     "(offset, FNV hash of asm_get_code[0,offset)) must equal the same calls on a 1 MiB caller buffer, and calling asm_get_code() must return K; plus sequences of asm_set_offset (ahead of / behind the code so far, up to 300000) + assemble, each call's region and offset compared with the caller buffer" % mults)
+                     "(offset, FNV hash of asm_get_code[0,offset)) must equal the same calls on a 1 MiB caller buffer, and calling asm_get_code() must return K; plus growth after the CALLER has changed the protection / advice of finished pages (mprotect read+exec, MADV_DONTDUMP, MADV_HUGEPAGE: the mapping is split, the kernel may refuse the growth - reported, retried after undoing - or the growth succeeds and the code must run); plus sequences of asm_set_offset (ahead of / behind the code so far, up to 300000) + assemble, each call's region and offset compared with the caller buffer" % mults)
     v.cov["exhaustive"] = False
     v.cov.update(stats)
     return v.finish(None, stats["growths"] > 50 and stats["executions_ok"] > 50 and stats.get("cases_with_growth", 0) > 0.8 * len(cases), "too few growth events: %r" % stats)
